@@ -24,11 +24,11 @@ IO = "orquestra.quantum.operators._io"
 MANIFEST = {
     "engine": "engine-F",
     "category": "other",
-    "technique": "contract-based verification: frame conditions of the converters by static ownership analysis; the structural operator round trip decided on symbolic coefficients (Engine M); value-level round-trip postconditions of every persisted artefact by exhaustive enumeration of the stated case families through real JSON text and files (bounded stand-in: formatting / parsing code is outside the VC generator's fragment)",
+    "technique": "contract-based deductive verification of ExpectationValues.to_dict / from_dict for ANY number of correlation / covariance frames and every None / empty / present combination (Engine V, loop invariants: a frame list is absent iff the attribute is None, otherwise converted frame by frame with the same length - [] stays []); contract-based verification: frame conditions of the converters by static ownership analysis; the structural operator round trip decided on symbolic coefficients (Engine M); value-level round-trip postconditions of every persisted artefact by exhaustive enumeration of the stated case families through real JSON text and files (bounded stand-in: formatting / parsing code is outside the VC generator's fragment)",
     "text": "Round trips are decided case by case over families chosen to cover every branch of the formats (optional keys, None / empty / several frames, real vs complex, zero and negative-zero parts, multi-digit indices, constants, empty sums). Exhaustive for the families, not a proof over all values: level 'other'.",
     "note": "Trusted: json / rapidjson / str(complex) / complex(str) executed natively; Engine F. Bounds: the stated case families.",
 }
-TRUSTED = ["CPython json, str(complex), complex(str); numpy", "vfw/frame.py", "vfw/trig.py for the symbolic-coefficient structural check"]
+TRUSTED = ["convert_array_to_dict / convert_dict_to_array uninterpreted in the ExpectationValues contracts (their own round trip is enumerated)", "CPython json, str(complex), complex(str); numpy", "vfw/frame.py", "vfw/trig.py for the symbolic-coefficient structural check"]
 ASSUMPTIONS = ["bounded to the enumerated coefficient / shape families (listed in the evidence samples)"]
 EXTRA = {"explanation": "each artefact goes through its real save/load or to_dict/from_dict pair and is compared with the original"}
 F_OPS = [IO + ":convert_op_to_dict", IO + ":convert_dict_to_op", IO + ":get_pauli_strings",
@@ -260,6 +260,8 @@ def _check_artefacts(mode):
 def build(tier, seed):
     obs = []
     fb = vprop.enum_ob("x", [], lambda: range(3), _check_op, "").run
+    from props import C11ev
+    obs.extend(C11ev.build())
 
     def frame_ob(key):
         def run():
